@@ -79,8 +79,19 @@ func CheckThesaurus(r *Report, tag string, seg segment.Segment, m *model.Seg, o 
 			}
 		}
 		r.Inc("thesauri_checked", 1)
-		lookups := append(append([]string{}, terms...), o.UnknownTerms...)
-		for _, term := range lookups {
+		// unknown terms first and in between: whatever a miss returned (possibly a
+		// shared "empty" sentinel) is the recycled object of the following hit
+		var lookups []string
+		for k, t := range terms {
+			if k < len(o.UnknownTerms) {
+				lookups = append(lookups, o.UnknownTerms[k])
+			}
+			lookups = append(lookups, t)
+		}
+		if len(terms) < len(o.UnknownTerms) {
+			lookups = append(lookups, o.UnknownTerms[len(terms):]...)
+		}
+		for lookupNo, term := range lookups {
 			exp := m.Thes[name][term]
 			c, err := th.Contains([]byte(term))
 			if err != nil || c != (len(exp) > 0) {
@@ -108,7 +119,7 @@ func CheckThesaurus(r *Report, tag string, seg segment.Segment, m *model.Seg, o 
 				// alternate fresh and recycled list/iterator objects
 				var preL segment.SynonymsList
 				var preI segment.SynonymsIterator
-				if ei%2 == 1 {
+				if ei%2 == 1 || (ei == 0 && len(exp) > 0 && sl != nil && lookupNo%2 == 1) {
 					preL, preI = sl, si
 					if slHit != nil && (len(exp) == 0 || ei%4 == 3) {
 						// a list that served a successful lookup, recycled for a miss
